@@ -157,56 +157,61 @@ theorem read_carries_no_range_data (zls : Bool) (bs : List Nat) (recs : List Hea
 
 /-! ## the lazy iterators agree with the validating pass
 
-Full statement (FALSE on the unchanged tree, defect D2):
+Full statement:
 
   `iter_agrees`: for every header record `r` accepted by `walk` (`RecOk`), `iterate r` is never
   `some (.error _)`, yields exactly `r.spec.nobj` items whose octets concatenate to `r.payload`, with
   indices `start, start+1, …, stop`.
 
-It fails exactly for octet-string range headers (g110) whose stop index is 65535: `RangedBytesIterator`
-increments its u16 index unguarded after every item (`ranged_bytes_iter_overflow`,
-`iter_octets_overflow_iff`).  Proved below: the statement for fixed-size objects under range, count and
-count-and-prefix qualifiers (`iter_agrees_partial`), for octet strings with stop < 65535
-(`iter_agrees_octets_partial`).  NOT proved in Lean (tied by the `parse` correspondence only): the
-packed bit / double-bit iterators and `PrefixedBytesIterator`. -/
+Proved below: the statement for octet strings under a range qualifier, for ALL ranges including those that
+end at index 65535 (`iter_agrees_octets`, `ranged_bytes_iter_never_panics`), and for fixed-size objects under
+range, count and count-and-prefix qualifiers (`iter_agrees_partial`).  NOT proved in Lean (tied by the `parse`
+correspondence only): the packed bit / double-bit iterators and `PrefixedBytesIterator`.
 
-/-- D2 witness: the response fragment `… 6E 01 01 FF FF FF FF 41` is accepted by the validating pass … -/
+History: until the repair of defect D2 `RangedBytesIterator::next` incremented its u16 index unguarded after
+every item, so the octet-string part failed exactly for ranges with stop index 65535 (the former theorems
+`ranged_bytes_iter_overflow` / `iter_octets_overflow_iff`).  The increment is now guarded like in the bit
+iterators; the former witness is kept as a regression theorem (`ranged_bytes_iter_end_of_index_space`) and
+as a corpus case of the `parse` engine (harness/corpus/C09/parse_D2.ops). -/
+
+/-- the former D2 witness: the response fragment `… 6E 01 01 FF FF FF FF 41` is accepted by the validating pass … -/
 theorem ranged_bytes_header_accepted :
     parseOne false false [110, 1, 1, 255, 255, 255, 255, 0x41] =
       .ok (⟨.wild 110 1, .range true 65535 65535, .octets, [0x41]⟩, []) := by rfl
 
-/-- … and iterating the accepted header overflows the u16 index (`attempt to add with overflow`) -/
-theorem ranged_bytes_iter_overflow :
-    iterate ⟨.wild 110 1, .range true 65535 65535, .octets, [0x41]⟩ = some (.error .addOverflow) := by rfl
+/-- … and iterating the accepted header yields its one object, index 65535 (before the repair: u16 overflow) -/
+theorem ranged_bytes_iter_end_of_index_space :
+    iterate ⟨.wild 110 1, .range true 65535 65535, .octets, [0x41]⟩ = some (.ok [⟨some 65535, [0x41]⟩]) ∧
+    iterate ⟨.wild 110 2, .range true 65534 65535, .octets, [1, 2, 3, 4]⟩ =
+      some (.ok [⟨some 65534, [1, 2]⟩, ⟨some 65535, [3, 4]⟩]) := by
+  constructor <;> rfl
 
-/-- octet-string ranges: iteration panics **iff** the range ends at index 65535; otherwise it yields the
-    announced objects, indices `a..b`, octets = the validated payload -/
-theorem iter_octets_overflow_iff (v : Nat) (w : Bool) (a b : Nat) (payload : List Nat)
-    (hab : a ≤ b) (hb : b ≤ 65535) (hl : payload.length = v * (b - a + 1)) :
-    let r : HeaderRec := ⟨.wild 110 v, .range w a b, .octets, payload⟩
-    (b = 65535 → iterate r = some (.error .addOverflow)) ∧
-    (b < 65535 → ∃ items, iterate r = some (.ok items) ∧ items.length = b - a + 1 ∧
+/-- **no panic.** Iterating an octet-string range header whose stop index is a u16 never panics — for every
+    variation octet, every range `a ≤ b ≤ 65535` and every payload (of the validated length or not) -/
+theorem ranged_bytes_iter_never_panics (var : Variation) (w : Bool) (a b : Nat) (payload : List Nat)
+    (hab : a ≤ b) (hb : b ≤ 65535) :
+    (∃ items, iterate ⟨var, .range w a b, .octets, payload⟩ = some (.ok items)) ∧
+    iterPanics ⟨var, .range w a b, .octets, payload⟩ = false := by
+  obtain ⟨items, hi⟩ := iterRangedBytes_no_panic var.var (b - a + 1) payload a (by omega)
+  have h : iterate ⟨var, .range w a b, .octets, payload⟩ = some (.ok items) := by
+    simp only [iterate, Spec.start, Spec.nobj, hi]
+  exact ⟨⟨items, h⟩, by simp only [iterPanics, h]⟩
+
+example : (65534 : Nat) ≤ 65535 ∧ (65535 : Nat) ≤ 65535 := by decide
+
+/-- **`iter_agrees` for octet strings**, all ranges including stop = 65535: an accepted header (payload of exactly
+    `variation * count` octets) iterates to exactly the announced `b - a + 1` objects, indices `a, a+1, …, b`,
+    `variation` octets each, concatenating to the payload the first pass validated; no iterator step fails -/
+theorem iter_agrees_octets (var : Variation) (w : Bool) (a b : Nat) (payload : List Nat)
+    (hab : a ≤ b) (hb : b ≤ 65535) (hl : payload.length = var.var * (b - a + 1)) :
+    ∃ items, iterate ⟨var, .range w a b, .octets, payload⟩ = some (.ok items) ∧ items.length = b - a + 1 ∧
         items.map (·.index) = (List.range (b - a + 1)).map (fun i => some (a + i)) ∧
-        (items.map (·.bytes)).flatten = payload) := by
-  intro r
-  obtain ⟨h1, h2⟩ := iterRangedBytes_spec v (b - a + 1) payload a hl
-  constructor
-  · intro hb65
-    simp only [r, iterate, Variation.var, Spec.start, Spec.nobj]
-    rw [h2 (by omega) (by omega) (by omega)]
-  · intro hlt
-    obtain ⟨items, hi, rest⟩ := h1 (by omega)
-    exact ⟨items, by simp only [r, iterate, Variation.var, Spec.start, Spec.nobj, hi], rest⟩
+        (items.map (·.bytes)).flatten = payload ∧ ∀ it ∈ items, it.bytes.length = var.var := by
+  obtain ⟨items, hi, rest⟩ := iterRangedBytes_spec var.var (b - a + 1) payload a hl (by omega)
+  exact ⟨items, by simp only [iterate, Spec.start, Spec.nobj, hi], rest⟩
 
-example : (0 : Nat) ≤ 65535 ∧ 65535 ≤ 65535 ∧ ([0x41, 0x42] : List Nat).length = 2 * (65535 - 65535 + 1) := by decide
-
-/-- `iter_agrees` for octet strings whose range does not end at 65535 (the part of the full statement that holds) -/
-theorem iter_agrees_octets_partial (v : Nat) (w : Bool) (a b : Nat) (payload : List Nat)
-    (hab : a ≤ b) (hb : b < 65535) (hl : payload.length = v * (b - a + 1)) :
-    ∃ items, iterate ⟨.wild 110 v, .range w a b, .octets, payload⟩ = some (.ok items) ∧ items.length = b - a + 1 ∧
-        items.map (·.index) = (List.range (b - a + 1)).map (fun i => some (a + i)) ∧
-        (items.map (·.bytes)).flatten = payload :=
-  (iter_octets_overflow_iff v w a b payload hab (by omega) hl).2 hb
+example : (0 : Nat) ≤ 65535 ∧ (65535 : Nat) ≤ 65535 ∧
+    ([0x41, 0x42] : List Nat).length = (Variation.wild 110 2).var * (65535 - 65535 + 1) := by decide
 
 /-- `iter_agrees` for fixed-size objects: an accepted header (payload of exactly `SIZE * count` octets) iterates to
     exactly `count` objects of `SIZE` octets each, whose concatenation is the payload the first pass validated;
